@@ -1,8 +1,9 @@
 """C18 - nothing is persisted unless asked; live results saved before the too-few-units error.
 
  R1 every call-graph path from an entry point to a persistent-write sink carries the guards the property names
-    (save_output flag traced through locals / attributes / dict entries / constructor arguments; remote 'results'
-    writes additionally APP_ENV != "local");
+    (save_output flag traced through locals / attributes / dict entries - following later update() / x[key] = v on the dict -
+    / constructor arguments; remote 'results' writes additionally APP_ENV != "local"); write sites not in the frozen table are
+    reported (R1.unlisted);
  R2 the live-results write dominates the raise of the not-enough-subunits error (on the paths where it is enabled), and the
     writer itself puts on every path from its entry to a normal return (must-pass-through in its CFG);
  R3 every remote key template starts with {S3_FILE_PATH}/{election_id}/ and its constant parts hold no whitespace;
